@@ -26,12 +26,11 @@ def statements(i, others=None):
     return out
 
 
-def cpython_view(tmp, k):
+def cpython_view(tmp, k, modnames=None):
     sys.path.insert(0, tmp)
     view = {}
     try:
-        for i in range(k):
-            name = f"pkg.m{i}"
+        for name in (modnames or [f"pkg.m{i}" for i in range(k)]):
             try:
                 mod = importlib.import_module(name)
             except Exception as e:  # noqa: BLE001
@@ -57,13 +56,13 @@ def cpython_view(tmp, k):
     return view
 
 
-def griffe_view(tmp, k):
+def griffe_view(tmp, k, modnames=None):
     ld = GriffeLoader(search_paths=[tmp], allow_inspection=False)
     pkg = ld.load("pkg")
     ld.resolve_aliases(implicit=True, external=False)
     view = {}
-    for i in range(k):
-        mod = pkg[f"m{i}"]
+    for name in (modnames or [f"pkg.m{i}" for i in range(k)]):
+        mod = pkg[name.split(".", 1)[1]]
         names = {}
         for n, m in mod.members.items():
             if "/" in n:
@@ -126,6 +125,35 @@ def check(mods):
         return compare(c, g)
 
 
+def nested_scenarios():
+    """Sub-packages: the same module text reached at different levels (`from .m0 import *` / `from ..m0 import *`), several wildcard imports in one module, in
+    both orders, re-exported further; compared with CPython like the flat graphs."""
+    bad, n = [], 0
+    base = {"pkg/__init__.py": "", "pkg/m0.py": "x = 'pkg.m0.x'\na = 'pkg.m0.a'\nclass K:\n    origin = 'pkg.m0.K'\n",
+            "pkg/sub/__init__.py": "", "pkg/sub/m0.py": "x = 'pkg.sub.m0.x'\nb = 'pkg.sub.m0.b'\n_p = 'pkg.sub.m0._p'\n",
+            "pkg/sub/deep/__init__.py": "from ..m0 import *\nfrom ...m0 import a as c\n", "pkg/m2.py": "from pkg.sub.m1 import *\nfrom .sub.deep import *\n"}
+    names = ["pkg.m0", "pkg.sub.m0", "pkg.sub.m1", "pkg.sub.deep", "pkg.m2"]
+    for m1 in ("from ..m0 import *\nfrom .m0 import *", "from .m0 import *\nfrom ..m0 import *", "from .m0 import *\nfrom pkg.m0 import *\nb = 'pkg.sub.m1.b'",
+               "from . import m0\nfrom .. import m0 as top\nfrom ..m0 import *", "from .m0 import *\nfrom .deep import *\n__all__ = ['x', 'c']"):
+        n += 1
+        with tempfile.TemporaryDirectory() as tmp:
+            for rel, src in dict(base, **{"pkg/sub/m1.py": m1 + "\n"}).items():
+                f = Path(tmp) / rel
+                f.parent.mkdir(parents=True, exist_ok=True)
+                f.write_text(src)
+            c = cpython_view(tmp, 0, names)
+            if c is None:
+                bad.append({"graph": [m1], "problems": ["the nested scenario is not importable by CPython (harness error)"], "signature": "nested:harness", "root_cause": []})
+                continue
+            try:
+                pr = compare(c, griffe_view(tmp, 0, names))
+            except BaseException as e:  # noqa: BLE001
+                pr = [f"loading raised {type(e).__name__}: {str(e)[:60]}"]
+            if pr:
+                bad.append({"graph": ["pkg/sub/m1.py: " + m1], "problems": pr[:3], "signature": "nested:" + m1, "root_cause": []})
+    return n, bad
+
+
 def root_cause(mods, problems):
     """C05-F2: a definition and a wildcard import of the same name written on ONE line (`x = 1; from m import *`): Griffe orders statements by line number
     only, CPython runs them left to right."""
@@ -181,7 +209,8 @@ def sweep(seed=0, n_random=300, budget_s=120, stop_after=5):
         n += 1
         if pr:
             bad.append({"modules": list(g), "problems": pr[:3], "signature": "package:" + json.dumps(list(g)), "root_cause": root_cause(list(g), pr)})
-    return {"cases": n, "not_importable": skipped, "bad": bad}
+    n_nested, bad_nested = nested_scenarios()
+    return {"cases": n + n_nested, "not_importable": skipped, "bad": bad_nested + bad}
 
 
 def replay_packages(w, obligation, expects):
